@@ -152,6 +152,7 @@ open Lean Elab Tactic Meta in
 elab "ev_head" : tactic => withMainContext do
   let g ← getMainGoal
   let t ← instantiateMVars (← g.getType)
+  let t := t.cleanupAnnotations
   unless t.isAppOfArity ``Ev 2 do throwError "ev_head: not an Ev goal"
   let e := t.appArg!
   let rec headOf (e : Expr) (fuel : Nat) : Option Name :=
@@ -181,7 +182,7 @@ elab "ev_head" : tactic => withMainContext do
     let gs ← g.apply (← mkConstWithFreshMVarLevels ``Ev.trans)
     let gs ← gs.filterM fun m => do
       let ty ← instantiateMVars (← m.getType)
-      pure (ty.isAppOfArity ``Ev 2)
+      pure (ty.cleanupAnnotations.isAppOfArity ``Ev 2)
     match gs with
     | [g1, g2] =>
       let side ← withReducible (g2.apply (← mkConstWithFreshMVarLevels lemmaName))
